@@ -434,6 +434,25 @@ def camp_stock_text(ctx):
                 if abs(got.get(i, 0.0) - p) > 1e-9:
                     ctx.fail('load_differs_from_file', dict(file=rel, bus=i, andes=got.get(i, 0.0), file_value=p), sig=dict(fmt='m'))
                     break
+            qd = {int(r[0]): r[3] / mva for r in mine['bus']}
+            gotq = {}
+            for bus, q0 in zip(ss.PQ.bus.v, ss.PQ.q0.vin):
+                gotq[bus] = gotq.get(bus, 0.0) + float(q0)
+            for i, q in qd.items():
+                if abs(gotq.get(i, 0.0) - q) > 1e-9:
+                    ctx.fail('load_differs_from_file', dict(file=rel, bus=i, andes_q=gotq.get(i, 0.0), file_value_q=q, file_value_p=pd.get(i)),
+                             sig=dict(fmt='m', which='q'))
+                    break
+            gsh = {int(r[0]): (r[4] / mva, r[5] / mva) for r in mine['bus']}
+            gots = {}
+            for bus, g, b in zip(ss.Shunt.bus.v, ss.Shunt.g.vin, ss.Shunt.b.vin):
+                a = gots.get(bus, (0.0, 0.0))
+                gots[bus] = (a[0] + float(g), a[1] + float(b))
+            for i, (g, b) in gsh.items():
+                a = gots.get(i, (0.0, 0.0))
+                if abs(a[0] - g) > 1e-9 or abs(a[1] - b) > 1e-9:
+                    ctx.fail('shunt_differs_from_file', dict(file=rel, bus=i, andes=list(a), file_value=[g, b]), sig=dict(fmt='m'))
+                    break
             xs = sorted(round(r[3], 9) for r in mine['branch'])
             xa = sorted(round(float(x), 9) for x in ss.Line.x.vin)
             if xs != xa:
